@@ -26,6 +26,8 @@ Lemma appenders_copy : forall p, (0 <= p <= 4)%Z -> append_mode p = Copy.
 Proof.
   intros p H. assert (p = 0 \/ p = 1 \/ p = 2 \/ p = 3 \/ p = 4)%Z as [-> | [-> | [-> | [-> | ->]]]] by lia; reflexivity.
 Qed.
+Lemma copy_connectivity_answers_from_the_copy : copy_connectivity_backref = BackToCopy.
+Proof. reflexivity. Qed.
 Lemma translate_by_value : translate_param_by_value = true.
 Proof. reflexivity. Qed.
 Lemma ring_all_fresh N nc open : Forall (fun s => s = SFresh) (ring_pattern N nc open).
